@@ -35,6 +35,8 @@ pub struct Index {
     pub consts: Vec<ConstEntry>,
     pub aliases: Vec<(String, syn::ItemType)>,
     pub fn_by_name: HashMap<String, Vec<usize>>,
+    /// `use a::b::c as d;` items: (module of the `use`, `d`) -> [`a`, `b`, `c`] (renaming imports only)
+    pub use_renames: HashMap<(String, String), Vec<String>>,
     cur_self_syn: Option<syn::Type>,
 }
 
@@ -125,6 +127,7 @@ impl Index {
                     }
                 }
                 Item::Fn(f) => self.add_fn(module, module, None, f, None),
+                Item::Use(u) => self.walk_use(module, &mut Vec::new(), &u.tree),
                 Item::Type(t) => self.aliases.push((format!("{}::{}", module, t.ident), t.clone())),
                 Item::Struct(s) => self.structs.push((format!("{}::{}", module, s.ident), s.clone())),
                 Item::Enum(e) => self.enums.push((format!("{}::{}", module, e.ident), e.clone())),
@@ -168,6 +171,29 @@ impl Index {
                 }
                 _ => {}
             }
+        }
+    }
+
+    /// record the renaming imports `path as alias` of a `use` item (plain imports and globs need no record:
+    /// calls are resolved by the item's own name)
+    fn walk_use(&mut self, module: &str, prefix: &mut Vec<String>, t: &syn::UseTree) {
+        match t {
+            syn::UseTree::Path(p) => {
+                prefix.push(p.ident.to_string());
+                self.walk_use(module, prefix, &p.tree);
+                prefix.pop();
+            }
+            syn::UseTree::Group(g) => {
+                for it in &g.items {
+                    self.walk_use(module, prefix, it);
+                }
+            }
+            syn::UseTree::Rename(r) => {
+                let mut full = prefix.clone();
+                full.push(r.ident.to_string());
+                self.use_renames.insert((module.to_string(), r.rename.to_string()), full);
+            }
+            _ => {}
         }
     }
 
